@@ -22,6 +22,7 @@ def run(ctx, db, tier):
     self_owning(ctx, db)
     whole_chain(ctx, db)
     hook_up(ctx, db)
+    emitter_always_suspends(ctx, db)
     listeners_hold_weak(ctx, db)
     summ = publish.Summaries(db)
     publish.check_no_touch(ctx, db, 'C15.publish-discipline', summ, functions=None, per_instance=False, floor=12)
@@ -208,6 +209,20 @@ def whole_chain(ctx, db):
         ops = [e for e in f.events() if e.k == 'call' and atomic.is_atomic_call(e)]
         ok = len(ops) == 1 and atomic.opname(ops[0]) == 'exchange' and (ops[0].get('args') or [{}])[0].get('const') == 0 and flows_only_into(f, ops[0], 'cocls::awaiter::resume_chain_lk') and atomic.acq(atomic.success_order(ops[0]))
         ctx.ob(rid, f, f['key'], ok, 'resume_chain: exchange(nullptr, >= acquire) feeding resume_chain_lk', desc='resume_chain is not one acquiring exchange(nullptr)')
+
+
+def emitter_always_suspends(ctx, db):
+    """the liveness of the signal is decided in await_suspend (which registers or refuses) and reported by await_resume.  hook_up_emitter
+    re-exports the emitter's await_ready and starts without a state: its first co_await must reach await_suspend, where the hook-up happens"""
+    rid = ctx.rule('C15.emitter-always-suspends', 'PATHS', 'signal::emitter::await_ready (also used by hook_up_emitter) answers false on every path: whether there is something to wait for is '
+                   'decided by await_suspend, and the very first await of a hook-up emitter - which has no state yet - must get there', floor=1)
+    for f, trs in traces_of(db, 'cocls::signal::emitter::await_ready', per_instance=False):
+        trs = [t for t in trs if live(t)]
+        ctx.paths(rid, len(trs))
+        bad = next((t for t in trs if ret_const(t) != 0), None)
+        ctx.ob(rid, f, f['key'], bad is None and bool(trs), 'await_ready is constant false' + ('' if bad is None else ' -- it answers %s' % (ret_expr(bad) or ret_const(bad))),
+               desc='emitter::await_ready may answer true: a hook-up emitter (no state yet) skips the suspension in which it registers itself, and is cancelled at once' if bad is not None else None,
+               trace=fmt_trace(bad) if bad else None)
 
 
 def hook_up(ctx, db):
